@@ -47,6 +47,13 @@ def run(ctx):
         sites = [(blk, t) for blk, t in a.poll.built.calls() if wakers.is_poll_call(t)] + [(blk, t) for blk, t, c in wakers.local_poll_helper_calls(F, a.poll)]
         wakers.check_poll_fn(ctx, "R14.1", a.poll, sites)
     r09_6(ctx, ads)
+    # applicability / order of what is emitted also rests on the buffer discipline and on room-before-entry
+    from . import groups, c15 as _c15
+    groups.util_buffers(ctx)
+    for _n in ("head", "tail"):
+        if ads[_n].translator is not None:
+            _c15.r15_1(ctx, ads[_n])
+
 
 
 def source_and_param_sites(a):
